@@ -264,7 +264,7 @@ func Run(r *fw.Run) {
 	r.Rule = "all ordered pairs (A,B), A=B included, of a family of worlds (5 topologies incl. kind change and a workload named ingress-controller x ipBlock sets inducing different partitions x port sets x direction, + admin-policy worlds) go through the real ConnDiffFromResourceInfos; every point of the common refinement (workload pairs; workload x address cell x direction) is checked against the two list reports; non-trivial = the diff has an added, removed or changed entry; distinct = distinct diffs"
 	r.Assume = []string{"list itself is decided by C01/C02/C05; the IP refinement uses the range starts of both lists and of every diff entry"}
 	if r.Quick() {
-		r.SetBudget(150 * time.Second)
+		r.SetBudget(300 * time.Second)
 	} else {
 		r.SetBudget(30 * time.Minute)
 	}
